@@ -43,6 +43,9 @@ type c15Cycle struct {
 	LateMS []int `json:"late_ms,omitempty"`
 	// CPUs > 0: this instance runs with its CPU affinity restricted to that many CPUs (0 = all)
 	CPUs int `json:"cpus,omitempty"`
+	// RepeatMS > 0: the same signal is sent a second time this many milliseconds after the first (a supervisor
+	// signalling the group and the pid, an impatient operator): the shutdown in progress must complete all the same
+	RepeatMS int `json:"repeat_ms,omitempty"`
 }
 
 type c15Case struct {
@@ -61,7 +64,7 @@ type c15Case struct {
 }
 
 const c15Rule = "case = 1..3 stop/start cycles of the real collector binary (each instance with all CPUs or its affinity restricted to 1, 2, 4 or 8; 2..8 workers per protocol; in about 3 of 4 cases a generated subset of the four protocols is switched off by configuration, at least one of IPFIX / NetFlow v9 stays on; rawSocket sink and restful stats owned by the harness, per-instance pid and cache files (in a quarter of the cases given as relative names with a working directory other than the configuration's), in a quarter of the cases on a file system other than the temporary directory's) with 1..8 exporters on 127.0.0.x and ::1: " +
-	"per cycle new IPFIX / NetFlow v9 templates are announced (or all known ones redefined with a shorter definition, so that the next cache file is shorter than the one it replaces) and acknowledged (a data message using them reached the sink), sFlow/NetFlow v5 noise, a data burst, then SIGTERM or SIGINT after a drawn delay, " +
+	"per cycle new IPFIX / NetFlow v9 templates are announced (or all known ones redefined with a shorter definition, so that the next cache file is shorter than the one it replaces) and acknowledged (a data message using them reached the sink), sFlow/NetFlow v5 noise, a data burst, then SIGTERM or SIGINT after a drawn delay (in 5 of 8 cycles sent once, otherwise repeated 1..1100 ms later), " +
 	"optionally with traffic (data and announcements of fresh template ids) continuing through the shutdown window, or with single late datagrams 0.9..2.1 s after the signal following a quiet period; a final verification restart follows the last cycle; " +
 	"oracle per cycle = exit status 0 within 6 s of the signal, stderr free of panic / fatal error / concurrent map, both cache files exist, load and decode data for every acknowledged (exporter,id) to the reference decode, " +
 	"and after the restart data sent WITHOUT templates for every acknowledged (exporter,id) is published with the reference payload; " +
@@ -134,6 +137,7 @@ func genC15(t *rapid.T) c15Case {
 		}
 		cy.Noise = rapid.IntRange(0, 20).Draw(t, "noise")
 		cy.CPUs = rapid.SampledFrom([]int{0, 0, 0, 0, 1, 2, 4, 8}).Draw(t, "cpus")
+		cy.RepeatMS = rapid.SampledFrom([]int{0, 0, 0, 1, 50, 300, 900, 1100}).Draw(t, "repeatms")
 		cy.Burst = rapid.SampledFrom([]int{0, 5, 50, 300}).Draw(t, "burst")
 		cy.Signal = rapid.SampledFrom([]string{"TERM", "TERM", "INT"}).Draw(t, "signal")
 		cy.DelayMS = rapid.SampledFrom([]int{0, 0, 1, 10, 100}).Draw(t, "delay")
@@ -409,6 +413,20 @@ func runC15(c *c15Case) (v verdict, sig string, err error) {
 		}
 		sent := time.Now()
 		proc.signal(sigNo)
+		if cy.RepeatMS > 0 {
+			v.label(true, "signal-sent-twice")
+			twg.Add(1)
+			go func() {
+				defer twg.Done()
+				select {
+				case <-stopTraffic:
+				case <-time.After(time.Duration(cy.RepeatMS) * time.Millisecond):
+					if !proc.exited() {
+						proc.signal(sigNo)
+					}
+				}
+			}()
+		}
 		if len(cy.LateMS) > 0 {
 			v.label(true, "late-datagrams-after-signal")
 			late := append([]int{}, cy.LateMS...)
